@@ -159,9 +159,10 @@ int main(int argc, char * argv[], char * envp[])
         if (result < 0 || result == 2) {
           if (expansion)
             std::free(expansion);
+          string line(p);
           std::free(p);
           throw_(std::logic_error,
-                 _f("Failed to expand history reference '%1%'") % p);
+                 _f("Failed to expand history reference '%1%'") % line);
         }
         else if (expansion) {
           add_history(expansion);
